@@ -221,7 +221,7 @@ def run(ck: common.Check):
         ck.broken_obligation("site-table", str(e))
 
     ck.cov["trusted_base"] = [
-        "Coq 8.16.1 kernel (coqc, full .vo build of coq/Determ); the 15 theorems of Props_C18.v are closed under the global context",
+        "Coq 8.16.1 kernel (coqc, full .vo build of coq/Determ); the 16 theorems of Props_C18.v are closed under the global context",
         "translator/py2coq_emitorder.py: syntactic scan (ast) with a small flow-insensitive type inference for sets / "
         "hash-ordered lists / dict views; receivers it cannot type are typed unknown, so the scan is a reviewed "
         "approximation, not a proof that no other site exists; the seed/history sweep is the runtime check of the same claim",
